@@ -61,6 +61,18 @@ def gen_cases(tier, seed):
                       "classes": classes + pcls + [tcls, dcls, "alpha:%s" % ("special" if alpha in (0, 1, 0.5) else "generic"),
                                                    "backend:" + ("direct" if i % 2 else "general")] + ["o:%d%d%d" % tuple(o) for o in orders],
                       "cost": len(pts) * norb * norb * (1 + sum(max(o) for o in orders)) ** 2})
+    for i in range(2 if tier == "quick" else 8):
+        rng = bases.rng_for("C06", seed, tier, "manypts", i)
+        ls = [int(x) for x in rng.integers(0, 3, size=2)]
+        shells, classes = bases.rand_basis(rng, ls, scale=1.0, emax_fn=lambda l: 30.0, Kmax=2, Mmax=2)
+        npts = int(rng.choice([1025, 2500]))
+        pts = (np.array(shells[0]["c"]) + rng.normal(size=(npts, 3)) * 1.5).tolist()
+        ntot = sum(bases.nfunc(s) for s in shells)
+        dm, dcls = bases.rand_sym(rng, ntot, "psd" if i % 2 else "indef")
+        orders = [[int(x) for x in rng.integers(0, 3, size=3)], [int(x) for x in rng.integers(0, 4, size=3)]]
+        cases.append({"shells": shells, "points": pts, "dm": dm, "transform": None, "alpha": 0.3, "orders": orders, "deriv_type": "direct" if i % 2 else "general",
+                      "classes": classes + ["pt:many(%d)" % npts, "T:none", dcls, "alpha:generic", "backend:" + ("direct" if i % 2 else "general")] + ["o:%d%d%d" % tuple(o) for o in orders],
+                      "cost": npts * ntot * ntot})
     return cases
 
 
